@@ -414,10 +414,40 @@ class Obl:
         self.res['native_done'] = (True, '\n'.join(fails[:5]) or text.strip()[-500:])
         return self.res
 
+    def run_script(self):
+        """Supporting static fact computed by a script over /repo's current tree (not a proof obligation)."""
+        s = self.s
+        os.makedirs(self.dir, exist_ok=True)
+        cmd = [sys.executable, os.path.join(VERIF, s['script']), REPO] + [os.path.join(VERIF, a) for a in s.get('script_args', [])]
+        self.res['cmd'] = ' '.join(cmd)
+        rc, out, err, dt = run_cmd(cmd, s.get('timeout', 600), 32)
+        self.res['solver_s'] = round(dt, 2)
+        self.res['backend'] = 'script'
+        try:
+            data = json.loads(out)
+        except Exception:
+            return self.undecided('script produced no JSON: ' + (err or out)[-300:])
+        if rc == 2 or 'error' in data:
+            return self.undecided('script error: ' + str(data.get('error'))[:300])
+        self.res['cbmc_properties'] = data.get('functions_scanned', 0)
+        self.res['discharged'] = data.get('functions_scanned', 0)
+        self.res['samples'] = [{k: data[k] for k in data if k != 'new'}]
+        if rc == 0:
+            self.res['status'] = 'PASS'
+            return self.res
+        self.res['status'] = 'FAIL'
+        self.res['failed'] = [{'property': s['id'] + '.new', 'description': json.dumps(x), 'location': s['script']} for x in data.get('new', [])][:10]
+        self.res['counterexample'] = {'new': data.get('new', [])[:10]}
+        self.res['counterexample_raw'] = {}
+        self.res['native_done'] = (None, 'static fact changed: ' + json.dumps(data.get('new', [])[:5]))
+        return self.res
+
     def run(self):
         s = self.s
         if s.get('kind') == 'native':
             return self.run_native()
+        if s.get('kind') == 'static':
+            return self.run_script()
         os.makedirs(self.dir, exist_ok=True)
         for u in s.get('units', []):
             if u in self.stage.inject_error:
